@@ -164,8 +164,12 @@ def dc_shapes(sub):
         fields = []
         for n in names:
             t = draw(sub)
+            if t[0] != "opt" and not has_union(t) and draw(st.integers(0, 3)) == 0:
+                t = ["opt", t]  # Optional fields are common in practice: a null given for one whose default is not None must survive dumps
             has_default = draw(st.booleans()) and not has_union(t)  # a Union default would make the expected value order dependent
             dflt = draw(conforming(t, for_default=True)) if has_default else None
+            if has_default and t[0] == "opt" and dflt is None and draw(st.booleans()):
+                dflt = draw(conforming(t[1], for_default=True))
             fields.append([n, t, has_default, dflt])
         fields.sort(key=lambda f: f[2])  # required first (a python signature forces it)
         return ["dc", "D", fields]
@@ -412,6 +416,8 @@ def conforming(shape, special=False, for_default=False):
                     out[name] = draw(rec(t).filter(lambda x: x is not None and x != "null"))  # a required field needs a non-null value (C06); the str 'null' under a None-admitting Literal is F23's subject
                 elif draw(st.booleans()):
                     out[name] = draw(rec(t))
+                    if t[0] == "opt" and _d is not None and draw(st.booleans()):
+                        out[name] = None  # null over a default that is not None
             return out
 
         return st.composite(lambda draw: build(draw))()
